@@ -19,6 +19,9 @@ import (
 type c06Plan struct {
 	Setup []vfCmd `json:"setup"`
 	Fail  vfCmd   `json:"fail"`
+	// During (op "" = none): a command that succeeds, issued while the failing one is still waiting for its dead
+	// target; afterwards everything must be as that command alone left it.
+	During vfCmd `json:"during"`
 }
 
 func c06Gen(t *rapid.T) c06Plan {
@@ -30,6 +33,18 @@ func c06Gen(t *rapid.T) c06Plan {
 		p.Setup = append(p.Setup, vfGenOKCmd(t, m, cfg))
 	}
 	p.Fail = vfGenFailCmd(t, m)
+	late := false
+	for _, tn := range p.Fail.Targets {
+		late = late || !vfTargetAlive(tn)
+	}
+	if late && (p.Fail.Op == "deploy" || p.Fail.Op == "rollout-deploy") && len(m.Svcs) > 0 && rapid.IntRange(0, 2).Draw(t, "during") == 0 {
+		p.Fail.DeployMs = 2500
+		scratch := m.clone()
+		p.During = vfGenOKCmd(t, scratch, vfGenCfg{Pause: false})
+		if p.During.Op == "remove" || p.During.Op == "pause" {
+			p.During = vfCmd{} // keep every service observable
+		}
+	}
 	return p
 }
 
@@ -208,7 +223,43 @@ func c06Run(t *testing.T, p c06Plan) (res vfResult) {
 		}
 
 		want := m.clone().apply(p.Fail)
-		got := vfExec(w, r, p.Fail)
+		var got vfCmdResult
+		if p.During.Op != "" {
+			pc := w.goCmd(func() error { got = vfExec(w, r, p.Fail); return nil })
+			time.Sleep(300 * time.Millisecond) // the failing command now waits for its dead target
+			synctest.Wait()
+			wantD := m.apply(p.During)
+			gotD := vfExec(w, r, p.During)
+			if gotD.Panicked != "" || !vfClassOK(wantD, vfErrClass(gotD.Err)) {
+				res.failf("setup-failed", "overlapping command %s: result %q panic=%q, model accepts %v", p.During, vfErrClass(gotD.Err), gotD.Panicked, wantD)
+				return
+			}
+			synctest.Wait()
+			for tn := range used {
+				delete(used, tn)
+			}
+			for tn := range usedMark {
+				delete(usedMark, tn)
+			}
+			for _, s := range m.Svcs {
+				for _, x := range append(append([]string{}, s.Active...), s.Rollout...) {
+					used[x] = true
+				}
+			}
+			for tn := range mark {
+				if used[tn] {
+					delete(mark, tn)
+				}
+			}
+			for tn := range used {
+				usedMark[tn] = len(w.targets[tn].probeLog())
+			}
+			before = c06Snapshot(w, r, m, statePath) // what the overlapping command alone leaves
+			<-pc.done
+			res.label("ok-command-during-failing-one")
+		} else {
+			got = vfExec(w, r, p.Fail)
+		}
 		cls := vfErrClass(got.Err)
 		if got.Panicked != "" {
 			res.failf("panic", "failing command %s panicked: %s", p.Fail, got.Panicked)
